@@ -543,6 +543,9 @@ def _run_suites(suites, fixture_registry, pre_run_scheduled_fixtures, session,
     )
     tasks = build_tasks(suites, fixture_registry, session_scheduled_fixtures, force_disabled)
     context = RunContext(session, fixture_registry, force_disabled, stop_on_failure)
+    # the report keeps the top-level suites sharing the same rank in the order they are given
+    for position, suite in enumerate(suites):
+        suite.position = position
 
     with session.event_manager.handle_events():
         session.start_test_session()
